@@ -368,6 +368,22 @@ def handlePerms (j : Json) : Option Json := do
   let n ← (field? j "n") >>= getNat?
   some (Json.mkObj [("perms", Json.arr ((C12.perms qs n).map (fun c => Json.arr (c.map (fun (k : Nat) => Json.num k)).toArray)).toArray)])
 
+def handleOffsets (j : Json) : Option Json := do
+  let src ← (field? j "src") >>= getStr?
+  let chars := src.toList
+  let lines := splitLines astBreak chars
+  let starts := lineStartsFrom 0 lines
+  let pos ← (field? j "pos") >>= getArr?
+  let cs ← pos.toList.mapM (fun p => do
+    let a ← getArr? p
+    some (Json.num (charPos lines (← getNat? a[0]!) (← getNat? a[1]!))))
+  let pts ← (field? j "points") >>= getArr?
+  let lc ← pts.toList.mapM (fun p => do
+    let r := linenoCol starts (← getNat? p)
+    some (Json.arr #[Json.num r.1, Json.num r.2]))
+  some (Json.mkObj [("chars", Json.arr cs.toArray), ("linecol", Json.arr lc.toArray),
+    ("starts", Json.arr (starts.map (fun (n : Nat) => Json.num n)).toArray)])
+
 def dispatch (j : Json) : Json :=
   match (field? j "suite") >>= getStr? with
   | some "sched" => (handleSched j).getD bad
@@ -384,6 +400,7 @@ def dispatch (j : Json) : Json :=
   | some "lit" => (handleLit j).getD bad
   | some "match" => (handleMatch j).getD bad
   | some "perms" => (handlePerms j).getD bad
+  | some "offsets" => (handleOffsets j).getD bad
   | _ => bad
 
 partial def loop (h : IO.FS.Stream) (out : IO.FS.Stream) : IO Unit := do
